@@ -131,6 +131,25 @@ def build():
     if csn.startswith(size_chk + trunc_chk): defs.append(("compare_checks_rfc_size", "bool", "true"))
     elif csn.startswith(trunc_chk): defs.append(("compare_checks_rfc_size", "bool", "false"))
     else: raise GenError("compare_signatures: unrecognised sequence of length checks")
+    # ---- Key::new / Key::generate: which result of calculate_bounds lands in which field.
+    # Both constructors destructure the tuple into locals and build the key with field shorthand;
+    # the order of the locals is emitted (the model follows it), everything else is anchored.
+    cb = fn_body(src, "calculate_bounds", after="impl Key")
+    one(r"Ok\(\(\s*min_mac_len\s*,\s*signing_len\s*\)\)\s*$", cb, "calculate_bounds result tuple")
+    for fn, flag in (("new", "new_bounds_swapped"), ("generate", "generate_bounds_swapped")):
+        b = fn_body(src, fn, after="impl Key")
+        m = one(r"let\s*\(\s*(\w+)\s*,\s*(\w+)\s*\)\s*=\s*Self::calculate_bounds\(\s*algorithm\s*,\s*min_mac_len\s*,\s*signing_len\s*\)\?;", b, "Key::%s bounds destructuring" % fn)
+        one(r"Key\s*\{\s*key:\s*hmac::Key::new\([^;]*?\),\s*name,\s*min_mac_len,\s*signing_len,?\s*\}", b, "Key::%s struct literal" % fn)
+        if len(re.findall(r"\bmin_mac_len\b", b)) != 3 or len(re.findall(r"\bsigning_len\b", b)) != 3:
+            raise GenError("Key::%s: min_mac_len/signing_len used outside bounds call, destructuring and literal" % fn)
+        order = (m.group(1), m.group(2))
+        if order == ("min_mac_len", "signing_len"): defs.append((flag, "bool", "false"))
+        elif order == ("signing_len", "min_mac_len"): defs.append((flag, "bool", "true"))
+        else: raise GenError("Key::%s: unrecognised destructuring %r" % (fn, order))
+    gb = fn_body(src, "generate", after="impl Key")
+    one(r"let\s+algorithm\s*=\s*algorithm\.into_hmac_algorithm\(\);\s*let\s+key_len\s*=\s*algorithm\.len\(\);\s*let\s+mut\s+bytes\s*=\s*BytesMut::with_capacity\(key_len\);\s*bytes\.resize\(key_len,\s*0\);\s*rng\.fill\(&mut\s+bytes\)\?;", gb, "Key::generate secret length")
+    one(r"hmac::Key::new\(algorithm,\s*&bytes\)", gb, "Key::generate key octets")
+    one(r"Ok\(\(key,\s*bytes\.freeze\(\)\)\)\s*$", gb, "Key::generate result")
     sl = fn_body(src, "signature_slice", after="impl Key")
     one(r"^\s*&signature\.as_ref\(\)\[\.\.self\.signing_len\]\s*$", sl, "signature_slice")
     defs.append(("compare_signatures_checked", "bool", "true"))
